@@ -285,7 +285,7 @@ static U64Vec g_dom;
 static void ph_disk(void *u) {
     uint64_t idx = 0;
     for (size_t i = 0; i < g_dom.n; i++)
-        for (int k = 1; k <= 3; k++)
+        for (int k = 1; k <= (mc_thorough ? 5 : 4); k++)
             for (int wd = 0; wd < 2; wd++, idx++) {
                 if (!mc_mine(idx)) continue;
                 if (mc_expired()) return;
@@ -317,13 +317,13 @@ static void ph_compact(void *u) {
 }
 static int g_polyanchors[64], g_npa;
 static void ph_poly(void *u) {
-    static const int shapes[] = {1, 4, 6, 8, 9}, ress[] = {1, 3, 5, 7};
+    static const int shapes[] = {1, 4, 6, 8, 9}, ress[] = {1, 3, 5, 7, 0, 2, 4, 9};
     static const uint32_t flagsE[] = {0, 1, 2, 3, 4, 0x10};
     uint64_t idx = 0;
     for (int ai = 0; ai < g_npa; ai++)
         for (int si = 0; si < 5; si++)
             for (int sc = 1; sc <= 2; sc++)
-                for (int ri = 0; ri < 4; ri++)
+                for (int ri = 0; ri < (mc_thorough ? 8 : 6); ri++)
                     for (int fn = 0; fn < 3; fn++)
                         for (int fi = 0; fi < (fn == 0 ? 1 : 6); fi++, idx++) {
                             if (!mc_mine(idx)) continue;
@@ -333,21 +333,22 @@ static void ph_poly(void *u) {
 }
 int main(int argc, char **argv) {
     mc_init(argc, argv);
+    mc_level = "fault_enumeration";
     poly_build_anchors();
     for (int an = 0; an < poly_nanchor && g_npa < 64; an++) {
         int k = poly_anchor_kind[an];
-        if (k == 1 || (k == 0 && an % (mc_thorough ? 6 : 30) == 0) || (k == 5 && an % 3 == 0) || (k == 2 && an % (mc_thorough ? 25 : 80) == 0)) g_polyanchors[g_npa++] = an;
+        if (k == 1 || (k == 0 && an % (mc_thorough ? 4 : 12) == 0) || (k == 5 && an % 3 == 0) || (k == 2 && an % (mc_thorough ? 25 : 80) == 0)) g_polyanchors[g_npa++] = an;
     }
-    snprintf(mc_bounds, sizeof mc_bounds, "fault bound: every single index, every persistent-from index, every pair (n<=14); disks: CLOSE(pentagons,2)+hexagons at res {0,1,2,5,9%s} x k 1..3 x distances NULL/non-NULL; "
-             "areNeighborCells: CLOSE(pentagons,1) at res {0,1,2,5} x ball 2; compactCells: 7 kinds x depth 1..4 on %s roots; polygons: 5 shapes x %d anchors x 2 scales x res {1,3,5,7} x (legacy, experimental x 6 flag values, size x 6)",
-             mc_thorough ? ",13" : "", mc_thorough ? "30" : "12", g_npa);
-    static const int dres[] = {0, 1, 2, 5, 9, 13};
-    for (int ri = 0; ri < (mc_thorough ? 6 : 5); ri++) {
+    snprintf(mc_bounds, sizeof mc_bounds, "fault bound: every single index, every persistent-from index, every pair (n<=14); disks: CLOSE(pentagons,2)+hexagons at res {0,1,2,5,9,13%s} x k 1..4(5) x distances NULL/non-NULL; "
+             "areNeighborCells: CLOSE(pentagons,1) at res {0,1,2,5} x ball 2; compactCells: 7 kinds x depth 1..4 on %s roots; polygons: 5 shapes x %d anchors x 2 scales x res {1,3,5,7,0,2(,4,9)} x (legacy, experimental x 6 flag values, size x 6)",
+             mc_thorough ? ",3,7,11,15" : "", mc_thorough ? "30" : "12", g_npa);
+    static const int dres[] = {0, 1, 2, 5, 9, 13, 3, 7, 11, 15};
+    for (int ri = 0; ri < (mc_thorough ? 10 : 6); ri++) {
         U64Vec p = {0};
         dom_pent(dres[ri], 0, &p);
         dom_close1(&p);
         dom_close1(&p);
-        for (size_t i = 0; i < p.n; i += (mc_thorough ? 1 : 2)) uv_push(&g_dom, p.v[i]);
+        for (size_t i = 0; i < p.n; i++) uv_push(&g_dom, p.v[i]);
         int d[15] = {3, 3, 3, 3, 3, 3, 3, 3, 3, 3, 3, 3, 3, 3, 3};
         uv_push(&g_dom, spec_mk(dres[ri], 20, d));
         uv_free(&p);
